@@ -53,6 +53,15 @@ CHECKS['C10'] = ('runtime oracle: MPFR 512-bit Leibniz determinant / cofactor in
 CHECKS['C14'] = ('runtime oracle: integer arithmetic on the IEEE total order; complete enumeration of all finite floats for the one-argument functions, binade-boundary/zero-straddling/random pairs at ULP distances 0..64 for doubles and comparisons; std, CXX98-fallback and SIMD builds',
          'nextFloat/prevFloat (1-step, n-step, vector forms; ext and gtc spellings), floatDistance(x, nextFloat(x,n)) = n, ULP equal/notEqual for scalar, vec1-4 and all nine matrix shapes, epsilon equal/notEqual/epsilonEqual/epsilonNotEqual for scalar, vector, matrix, quaternion: every answer compared with successor/predecessor/distance computed on the monotone integer index of the IEEE order and with both the exact and the correctly rounded |x-y|.',
          TRUST, 'DESIGN.md 7/C14')
+CHECKS['C08'] = ('runtime oracle: view-volume corners pushed through the returned matrix in long double / __float128 against the clip-cube corners with derived bounds; bitwise comparison of unsuffixed/half-suffixed builders with the variant selected by the macros; four clip-control builds',
+         'All suffixed ortho/frustum/perspective/perspectiveFov/infinitePerspective builders (RH/LH x NO/ZO), their unsuffixed and half-suffixed dispatchers in the four configurations {RH,LH}x{NO,ZO}, perspective==symmetric frustum, perspectiveFov==perspective(aspect), tweakedInfinitePerspective, project/unProject (NO/ZO/unsuffixed, float and integer viewports), pickMatrix; a link probe checks that every declared builder is defined.',
+         TRUST, 'DESIGN.md 7/C08')
+CHECKS['C09'] = ('runtime oracle: M*E with E built element-wise in long double / __float128, rigid-transform clauses for lookAt, recompose(decompose(M)) and reference recomposition with conditioned bounds; RH/LH x NO/ZO builds for lookAt',
+         'translate/rotate/scale/shear and their _slow twins, gtx transform/transform2/matrix_transform_2d/rotate_vector/rotate_normalized_axis/matrix_interpolation helpers, lookAt/RH/LH under all four clip-control configurations, decompose/recompose with every quaternion-extraction and flip branch counted.',
+         TRUST, 'DESIGN.md 7/C09')
+CHECKS['C20'] = ('compiler sanitizers as oracle: every other monitor and a dedicated domain-edge monitor rebuilt with ASan+UBSan (+float-cast-overflow) of g++ 12 (clang 14 in the thorough tier) and re-run single-threaded on in-domain workloads; reports located under glm/ are attributed to (operation, input) through the monitor breadcrumb',
+         'Any UBSan/ASan report inside glm/ raised while the in-domain workloads of the other properties run is a violation keyed by (operation, UB kind, file). Quick: the integer/bitfield/packing/ULP/common monitors and the edge monitor (about 10 sanitizer builds); thorough: all monitors including SIMD builds, both compilers.',
+         TRUST + ' Only UB the installed sanitizers can observe; strict aliasing and inactive-union reads are out of reach; left shift of negative values is deliberately not flagged.', 'DESIGN.md 7/C20')
 REASONS = {}
 
 checks = []
